@@ -130,6 +130,22 @@ def main():
         print(f"INFRASTRUCTURE: {e}")
         return 2
 
+    # ------------------------------------------------------------------ canary: the comparison code must flag wrong answers
+    if getattr(mod, "CANARY", False):
+        try:
+            import pipeline
+
+            cf = pipeline.canary()
+        except HarnessError as e:
+            print(f"INFRASTRUCTURE: canary could not run: {e}")
+            return 2
+        except Exception as e:  # noqa: BLE001
+            cf = []
+            print(f"note: canary skipped ({type(e).__name__}: {str(e)[:200]})")
+        if cf:
+            print(f"INFRASTRUCTURE: canary failed: {cf}")
+            return 2
+
     # ------------------------------------------------------------------ corpus, known findings, exploration
     findings = load_findings(prop)
     known = [e for e in findings if e["status"] == "known"]
